@@ -112,7 +112,7 @@ func newPath(prefix string) string {
 // the receiver's socket queue so that it is processed rather than dropped.
 func sendSpoof(s *spoofer, dstRTP, dstRTCP *net.UDPAddr, burst int, forgeRTP, forgeRTCP func(k int) []byte) (sent int) {
 	for k := 0; k < burst; k++ {
-		if k%32 == 0 {
+		if k%64 == 0 {
 			pace(dstRTP.Port, dstRTCP.Port)
 		}
 		if _, err := s.rtp.WriteToUDP(forgeRTP(k), dstRTP); err == nil {
@@ -264,9 +264,9 @@ func runServerUDP(sr *srvRig, sc srvScenario) {
 
 func serverUDPPart() {
 	rs := run.Rand("server-udp", 0)
-	burst := run.Pick(150, 9000)
+	burst := run.Pick(400, 3000)
 	rounds := run.Pick(2, 6)
-	nOther := run.Pick(1, 4)
+	nOther := run.Pick(2, 4)
 	var scs []srvScenario
 	add := func(listen, ip, mode string) {
 		scs = append(scs, srvScenario{Name: fmt.Sprintf("%s/%s/from-%s", listen, mode, ip), Listen: listen, LegitIP: ip, Mode: mode,
